@@ -9,7 +9,7 @@
    identities already handed out; it holds initially and after every step (run_wf). *)
 From Coq Require Import List Arith ZArith Bool.
 Import ListNotations.
-Require Import MD.Traj.Model MD.Traj.Lists MD.Traj.Proofs MD.Traj.NoSharing.
+Require Import MD.Traj.Model MD.Traj.Lists MD.Traj.Proofs MD.Traj.NoSharing MD.Traj.Flow MD.Traj.FlowProofs.
 
 (* ---- numpy index semantics used by the specifications *)
 Theorem key_positions_in_range : forall n k idx s,
@@ -46,11 +46,23 @@ Theorem join_spec : forall v w r others ct dis w',
 Proof. exact join_step_full. Qed.
 Print Assumptions join_spec.
 
+(* md.join(list) is the reduction it is in the source: first.join(second).join(third)..., every step a complete
+   two-operand join with its own fresh copies; only the last result is reachable.  Its result has the first operand's
+   atom count, topology and cell presence, equal field lengths, nothing in common with any existing trajectory
+   (mdjoin_facts), and its coordinates and times are the left fold of the two-operand join (red_parts) *)
 Theorem mdjoin_spec : forall v w rs dis w',
   step v w (OMdJoin rs dis) = (w', ROk) ->
-  exists t o rest t' plan, get_all w rs = Some (t :: o :: rest) /\ join_facts v w t (o :: rest) dis w' t' plan.
+  exists t o rest t', get_all w rs = Some (t :: o :: rest) /\ mdjoin_facts w t w' t'.
 Proof. exact mdjoin_step_full. Qed.
 Print Assumptions mdjoin_spec.
+
+Theorem mdjoin_values_are_the_fold : forall v w rs dis w' t o rest,
+  wf w -> get_all w rs = Some (t :: o :: rest) -> step v w (OMdJoin rs dis) = (w', ROk) ->
+  exists t', trajs w' = trajs w ++ [t'] /\
+    red_parts dis (frames w t) (a_val (tm t)) (map (fun x => (frames w x, a_val (tm x))) (o :: rest))
+    = Some (frames w' t', a_val (tm t')).
+Proof. exact mdjoin_values. Qed.
+Print Assumptions mdjoin_values_are_the_fold.
 
 Theorem join_without_trimming_is_concatenation : forall A (ls : list (list A)),
   jparts (map (fun _ => false) ls) ls = concat ls.
@@ -70,6 +82,17 @@ Theorem stack_spec : forall w r r' t o w',
     length (hx w) <= xb t' /\ ntop w <= tloc t' /\ nframes t = nframes o.
 Proof. exact stack_ok. Qed.
 Print Assumptions stack_spec.
+
+(* stacking more than two trajectories is done by chaining: t.stack(o).stack(o2) *)
+Theorem stack_chain_spec : forall w r r' r'' t o o2 w1 w2,
+  wf w -> nth_error (trajs w) r = Some t -> nth_error (trajs w) r' = Some o -> nth_error (trajs w) r'' = Some o2 ->
+  do_stack w r r' = (w1, ROk) -> do_stack w1 (length (trajs w)) r'' = (w2, ROk) ->
+  exists t2, trajs w2 = trajs w1 ++ [t2] /\
+    frames w2 t2 = zip_stk (zip_stk (frames w t) (frames w o)) (frames w o2) /\
+    na t2 = na t + na o + na o2 /\ chains t2 = (chains t ++ chains o) ++ chains o2 /\
+    tm t2 = tm t /\ tr t2 = None /\ lengths_ok t2 = true /\ (forall x, In x (trajs w) -> xb x <> xb t2).
+Proof. exact stack_chain. Qed.
+Print Assumptions stack_chain_spec.
 
 (* ---- atom_slice: numpy take on the atom axis of every frame; other fields copied (inplace=False) or kept *)
 Theorem atom_slice_spec : forall v w r idx t w',
@@ -96,6 +119,48 @@ Theorem atom_slice_inplace_spec : forall v w r idx t w',
     nframes t' = nframes t /\ reg_ok w' t' /\ length (hx w) <= xb t'.
 Proof. exact atom_slice_inplace_ok. Qed.
 Print Assumptions atom_slice_inplace_spec.
+
+(* ---- reflection for the data-flow terms re-extracted from mdtraj/core/trajectory.py on every run (MD.Gen.TrajFlow):
+        the terms have a semantics (MD.Traj.Flow: slice_sem, join_sem, stack_sem, atom_slice_sem, effects_sem) defined for
+        right and wrong terms alike; a term that passes the checker denotes exactly the model's operation, so every
+        theorem of this file is about what the source text says today.  Each run proves check_* = true for the extracted terms. *)
+Theorem flow_reflection_slice : forall f, check_slice f = true ->
+  exists g, slice_sem f = Some g /\
+            forall v w r k copy, slice_indexes_traces v = true -> g w r k copy = do_slice v w r k copy.
+Proof. exact check_slice_sound. Qed.
+Print Assumptions flow_reflection_slice.
+
+Theorem flow_reflection_join : forall f, check_join f = true ->
+  exists g, join_sem f = Some g /\ forall w t others ct dis, g w t others ct dis = join_trajs w t others ct dis.
+Proof. exact check_join_sound. Qed.
+Print Assumptions flow_reflection_join.
+
+Theorem flow_reflection_stack : forall f, check_stack f = true ->
+  exists g, stack_sem f = Some g /\ forall w r r', g w r r' = do_stack w r r'.
+Proof. exact check_stack_sound. Qed.
+Print Assumptions flow_reflection_stack.
+
+Theorem flow_reflection_atom_slice : forall f, check_atom_slice f = true ->
+  exists g, atom_slice_sem f = Some g /\ forall v w r idx, g w r idx = do_atom_slice v w r idx false.
+Proof. exact check_atom_slice_sound. Qed.
+Print Assumptions flow_reflection_atom_slice.
+
+(* the in-place methods (xyz setter, atom_slice(inplace=True), center_coordinates, superpose; remove_solvent delegating to
+   atom_slice; time / unitcell setters not touching coordinates or cache): their extracted cache effects *)
+Theorem flow_reflection_inplace : forall e, check_effects e = true ->
+  exists ops, effects_sem e = Some ops /\
+    (forall w r m natoms, op_set_xyz_new ops w r m natoms = do_set_xyz_new w r m natoms) /\
+    (forall v w r idx, aslice_inplace_resets v = true -> op_atom_slice_inplace ops w r idx = do_atom_slice v w r idx true) /\
+    (forall w r mw, op_center ops w r mw = do_center w r mw) /\
+    (forall w r ref frame, op_superpose ops w r ref frame = do_superpose w r ref frame).
+Proof. exact check_effects_sound. Qed.
+Print Assumptions flow_reflection_inplace.
+
+(* what the interpreter says about a wrong term: a slice whose time is not copied shares its time buffer with the
+   source; an atom_slice(inplace=True) that keeps the cache leaves it stale *)
+Example wrong_terms_have_wrong_meanings : dropped_copy_shares_stmt /\ missing_reset_is_stale_stmt.
+Proof. exact (conj dropped_copy_shares missing_reset_is_stale). Qed.
+Print Assumptions wrong_terms_have_wrong_meanings.
 
 (* ---- a refused operation changes nothing (the one exception, a superpose that raises after centring in
         place, is modelled and covered by run_wf / the cache theorem) *)
@@ -136,7 +201,12 @@ Proof. exact step_fresh_xyz. Qed.
 Print Assumptions fresh_xyz.
 
 (* ---- slice(copy=True), join, md.join, atom_slice(inplace=False), remove_solvent(inplace=False):
-        no array buffer (xyz, time, cell, traces) and no topology object in common with any existing trajectory *)
+        no array buffer (xyz, time, cell, traces) and no topology object in common with any existing trajectory.
+        The topology is ONE identity [tloc] here: deepcopy(topology), Topology.subset and Topology.join are taken to
+        return an object graph (chains, residues, atoms, the atoms that bonds point to) disjoint from their input, which
+        is exactly C04's copy_independent / subset_* / join theorems (coq/Props/C04.v) -- C03 depends on them and adds
+        nothing to them; the runs check it on topologies with bonds and two-atom residues (object identities of every
+        Chain, Residue, Atom and bonded Atom of a result against all earlier topologies) *)
 Theorem no_shared_mutable : forall v w o w',
   wf w -> makes_independent o = true -> step v w o = (w', ROk) ->
   exists t', trajs w' = trajs w ++ [t'] /\ forall t, In t (trajs w) -> independent t t'.
